@@ -151,12 +151,22 @@ def run_family(prop, tier, mc_cfg, edge_cfg, sizes, deep=False, probes=(), assum
         # the regime the fork trees cannot reach: pre-Oak retargeting (every 500 blocks, from the
         # timestamp of the 1000th ancestor) on a chain of 1503 real blocks -- tip states vs the
         # independent ledger, a batch-fed side-chain node vs the linear one, update-stream states
-        pre = vlib.go_run(binary, "TestPreOak", wd, timeout=900, tag="preoak")
+        try:
+            pre = vlib.go_run(binary, "TestPreOak", wd, timeout=900, tag="preoak")
+        except vlib.Infra:
+            if not verdict.violations:
+                raise
+            pre = {"mismatches": [], "counts": {}, "wall": 0.0, "evaluations": 0}   # the run already has its verdict
         verdict.add_all(pre["mismatches"])
         log("  P: pre-Oak chain of %d blocks (Oak hardfork at 1500 and beyond the chain): %d findings, %.1fs" % (pre.get("counts", {}).get("preoak_blocks", 0), len(pre["mismatches"]), pre["wall"]))
     if prop == "C19":
         # a backlog no fork tree has: 3400 real blocks pruned in one call (and again, and in steps)
-        lp = vlib.go_run(binary, "TestLongPrune", wd, timeout=900, tag="longprune")
+        try:
+            lp = vlib.go_run(binary, "TestLongPrune", wd, timeout=900, tag="longprune")
+        except vlib.Infra:
+            if not verdict.violations:
+                raise
+            lp = {"mismatches": [], "counts": {}, "wall": 0.0}
         verdict.add_all(lp["mismatches"])
         log("  P: chain of %d blocks pruned in one call: %d findings, %.1fs" % (lp.get("counts", {}).get("long_blocks", 0), len(lp["mismatches"]), lp["wall"]))
     tt = None
